@@ -166,6 +166,7 @@ def build_app(box):
     class Read(tornado.web.RequestHandler):
         def get(self):
             box.read = {k: m.value for k, m in self.request.cookies.items()}
+            box.read_gc = {k: self.get_cookie(k, "<default>") for k in box.read}
             for n in box.want_signed:
                 box.signed[n] = self.get_signed_cookie(n)
             self.write("READ")
@@ -191,6 +192,7 @@ def run_case(app, box, prog):
         res.cookies = []
         res.out2 = None
         res.read = None
+        res.read_gc = None
         res.signed = {}
         if not res.problems and res.resps and not c.closed:
             res.cookies = [wo.ua_parse_set_cookie(v) for v in res.resps[0].get_all("set-cookie")]
@@ -198,8 +200,10 @@ def run_case(app, box, prog):
                 pairs = b"; ".join(n + b"=" + v for n, v, _ in res.cookies)
                 box.want_signed = [op[1][0] for op in prog if op[0] == "signed"
                                    and isinstance(op[1][0], str)]
-                res.out2 = c.send(wo.request(b"/read", b"Cookie: " + pairs + b"\r\n"))
+                # (cookies of other software on the same domain, with names http.cookies refuses, come first)
+                res.out2 = c.send(wo.request(b"/read", b"Cookie: ui[theme]=dark; path=x; " + pairs + b"\r\n"))
                 res.read = box.read
+                res.read_gc = getattr(box, "read_gc", None)
                 res.signed = dict(box.signed)
         res.errors = c.errors()
         res.closed = c.closed
@@ -302,6 +306,9 @@ def judge(prog, res, notes):
             if res.signed.get(name) != want_v:
                 return ("signed-value-readback-differs",
                         "get_signed_cookie(%r) = %r, set %r" % (name, res.signed.get(name), value))
+        elif res.read.get(name) == value and res.read_gc is not None and res.read_gc.get(name) != value:
+            return ("get_cookie-differs-from-request.cookies",
+                    "get_cookie(%r) = %r, request.cookies has %r" % (name, res.read_gc.get(name), value))
         elif res.read.get(name) != value:
             return ("value-readback-differs",
                     "sent back %r, request.cookies = %r, set %r=%r" % (
